@@ -89,6 +89,34 @@ def run(rng, tier, res=None):
             fresh.load(path)
             s2 = model_state(fresh)
             p2 = pq(fresh)
+            # the receiver is "a freshly constructed model of the same kind": however it was constructed (another metric,
+            # its own pre-computed distance file), after load it must be the saved model
+            if case % 2 == 1:
+                other = os.path.join(tmp, f"other{case}.csv")
+                R = np.array([[rng.uniform(0.5, 9.0) for _ in range(len(X))] for _ in range(len(X))])
+                np.savetxt(other, R, delimiter=",")
+                cls3 = type(fresh)
+                kw3 = {"distance": rng.choice(names), "pre_computed_distance": other}
+                fresh3 = cls3(max_k=2, **kw3) if kind == "knn" else (cls3(min_k=1, max_k=3, **kw3) if kind == "unsup" else cls3(**kw3))
+                fresh3.load(path)
+                p3 = pq(fresh3)
+                bad = []
+                if bool(fresh3.pre_computed_distance) != bool(o.pre_computed_distance):
+                    bad.append(f"pre_computed_distance={fresh3.pre_computed_distance} (saved: {o.pre_computed_distance})")
+                if (fresh3.pre_distances is None) != (o.pre_distances is None) or \
+                        (o.pre_distances is not None and np.asarray(fresh3.pre_distances).tobytes() != np.asarray(o.pre_distances).tobytes()):
+                    bad.append("pre_distances differ from the saved model's")
+                if fresh3.distance != o.distance or fresh3.distance_fn is not dist.DISTANCES[metric]:
+                    bad.append(f"distance={fresh3.distance}")
+                if model_state(fresh3) != s0b:
+                    bad.append("forest state differs")
+                if repr(p3) != repr(p0):
+                    bad.append(f"predictions {p3} vs {p0}")
+                if bad:
+                    viol(f"{kind}/{metric}: loaded into a model constructed with another metric and its own distance file: {bad[:3]}", meta)
+                res.hit("receiver_with_own_options")
+            if pre and (np.asarray(fresh.pre_distances).tobytes() != np.asarray(M).tobytes()):
+                viol(f"{kind}/{metric}: the re-loaded model's pre-computed matrix differs from the saved one", meta)
             # a second load of the same file must give an independent object with the saved state
             fresh2 = type(fresh)()
             fresh2.load(path)
